@@ -81,7 +81,9 @@ type Interp struct {
 	MapOrderAll  bool // explore all map iteration orders
 	PoolStale    int  // >0: pooled byte buffers carry this many stale symbolic cells
 	GoOrderAll   bool
-	CheckGlobalW bool // flag stores to objects created by package init
+	Monitor bool // C13: flag stores to package-level state, use of released pooled buffers, overlapping goroutine write sets
+	closureWrites map[*Object]bool
+	closureBase   int
 	ConcretizeAlloc bool // fork on small symbolic []byte allocation sizes (decoders of untrusted input)
 	Concrete     map[string]uint64 // when non-nil: symbolic inputs take these concrete values (translator validation)
 	Params       map[string]int
@@ -347,11 +349,19 @@ func (it *Interp) newZeroObject(t types.Type, count int, tag string) *Object {
 }
 
 func (it *Interp) setCell(o *Object, i int, v Value) {
+	if it.Monitor && it.journalOn && it.path != nil {
+		if o.Tag == "pool-released" {
+			it.path.MonitorHits = append(it.path.MonitorHits, "C13.use-after-put: write to a released pooled buffer in "+it.curFn())
+		}
+		if it.closureWrites != nil && o.ID <= it.closureBase && o.ID > 0 {
+			it.closureWrites[o] = true
+		}
+	}
 	if it.journalOn {
 		if o.Global {
 			it.journal = append(it.journal, undo{obj: o, idx: i, old: o.Cells[i]})
-			if it.CheckGlobalW && it.path != nil {
-				it.path.GlobalWrites = append(it.path.GlobalWrites, fmt.Sprintf("o%d[%d] %s in %s", o.ID, i, o.Label, it.curFn()))
+			if it.Monitor && it.path != nil {
+				it.path.MonitorHits = append(it.path.MonitorHits, fmt.Sprintf("C13.shared-write: store to package-level state %s (object o%d) in %s", o.Label, o.ID, it.curFn()))
 			}
 		}
 	}
@@ -538,6 +548,9 @@ func (it *Interp) candidates(o *Object, off *Term, ncells int) []int {
 
 // loadCell reads one leaf cell at a possibly symbolic offset.
 func (it *Interp) loadCell(o *Object, off *Term) Value {
+	if it.Monitor && o.Tag == "pool-released" && it.path != nil && it.journalOn {
+		it.path.MonitorHits = append(it.path.MonitorHits, "C13.use-after-put: read of a released pooled buffer in "+it.curFn())
+	}
 	if off.IsConst() {
 		i := int(off.Val)
 		if i < 0 || i >= len(o.Cells) {
